@@ -1,6 +1,647 @@
-//! proto ops. Stub until the layer is built. Mirror of coq/Extract/Ops*.v
+//! proto ops (C17, C18, C04-protobuf): mirror of coq/Extract/OpsProto.v
 use crate::I;
 
+#[cfg(not(feature = "protobuf"))]
 pub fn run(_op: I, _a: &[I]) -> Vec<I> {
     vec![-1]
+}
+
+#[cfg(feature = "protobuf")]
+pub use imp::run;
+
+#[cfg(feature = "protobuf")]
+mod imp {
+    use crate::{bytes_of, I};
+    use asn1rs::prelude::*;
+    use asn1rs::protocol::protobuf::{Error, Format, ProtoRead, ProtoWrite};
+    use std::alloc::{GlobalAlloc, Layout, System};
+    use std::cell::Cell;
+    use std::sync::atomic::{AtomicBool, Ordering};
+
+    // ------------------------------------------------------------------
+    // Watchdog: a read that never terminates (and allocates without bound) must not take the
+    // harness down.  Reads run in a worker thread; the allocator charges the worker's allocations
+    // to a per-thread budget and parks the thread for good once the budget is exceeded.
+    // ------------------------------------------------------------------
+    const BUDGET: usize = 8 << 20;
+    thread_local! {
+        static WORKER: Cell<bool> = const { Cell::new(false) };
+        static USED: Cell<usize> = const { Cell::new(0) };
+    }
+    static TRIPPED: AtomicBool = AtomicBool::new(false);
+
+    struct Quota;
+    #[inline]
+    fn charge(n: usize) {
+        let over = WORKER
+            .try_with(|w| {
+                if w.get() {
+                    USED.try_with(|u| {
+                        let v = u.get().saturating_add(n);
+                        u.set(v);
+                        v > BUDGET
+                    })
+                    .unwrap_or(false)
+                } else {
+                    false
+                }
+            })
+            .unwrap_or(false);
+        if over {
+            TRIPPED.store(true, Ordering::SeqCst);
+            loop {
+                std::thread::park();
+            }
+        }
+    }
+    #[inline]
+    fn refund(n: usize) {
+        let _ = WORKER.try_with(|w| {
+            if w.get() {
+                let _ = USED.try_with(|u| u.set(u.get().saturating_sub(n)));
+            }
+        });
+    }
+    unsafe impl GlobalAlloc for Quota {
+        unsafe fn alloc(&self, l: Layout) -> *mut u8 {
+            charge(l.size());
+            System.alloc(l)
+        }
+        unsafe fn dealloc(&self, p: *mut u8, l: Layout) {
+            refund(l.size());
+            System.dealloc(p, l)
+        }
+        unsafe fn alloc_zeroed(&self, l: Layout) -> *mut u8 {
+            charge(l.size());
+            System.alloc_zeroed(l)
+        }
+        unsafe fn realloc(&self, p: *mut u8, l: Layout, new: usize) -> *mut u8 {
+            if new > l.size() {
+                charge(new - l.size());
+            } else {
+                refund(l.size() - new);
+            }
+            System.realloc(p, l, new)
+        }
+    }
+    #[global_allocator]
+    static GLOBAL: Quota = Quota;
+
+    /// Ok(v) | Err(panic class); class 7 = unbounded allocation / no termination
+    fn guarded<T: Send + 'static>(f: impl FnOnce() -> T + Send + 'static) -> Result<T, I> {
+        let (tx, rx) = std::sync::mpsc::channel();
+        TRIPPED.store(false, Ordering::SeqCst);
+        let h = std::thread::Builder::new()
+            .stack_size(16 << 20)
+            .spawn(move || {
+                WORKER.with(|w| w.set(true));
+                let r = crate::catch(f);
+                WORKER.with(|w| w.set(false));
+                let _ = tx.send(r);
+            })
+            .unwrap();
+        let t0 = std::time::Instant::now();
+        loop {
+            match rx.recv_timeout(std::time::Duration::from_millis(5)) {
+                Ok(r) => {
+                    let _ = h.join();
+                    return r;
+                }
+                Err(std::sync::mpsc::RecvTimeoutError::Timeout) => {
+                    if TRIPPED.load(Ordering::SeqCst) || t0.elapsed().as_secs() >= 20 {
+                        return Err(7);
+                    }
+                }
+                Err(std::sync::mpsc::RecvTimeoutError::Disconnected) => return Err(9),
+            }
+        }
+    }
+
+    // ------------------------------------------------------------------
+    // The zoo.  The ASN.1 text is compiled by asn_to_rust! and kept as a constant for op 4100.
+    // ------------------------------------------------------------------
+    macro_rules! zoo_module {
+        ($name:ident, $src:literal) => {
+            asn_to_rust!($src);
+            pub const $name: &str = $src;
+        };
+    }
+
+    zoo_module!(
+        ZOO_SRC,
+        r"Zoo DEFINITIONS AUTOMATIC TAGS ::=
+BEGIN
+Ints ::= SEQUENCE {
+  fu8  INTEGER (0..255),
+  fi8  INTEGER (-128..127),
+  fu16 INTEGER (0..65535),
+  fi16 INTEGER (-32768..32767),
+  fu32 INTEGER (0..4294967295),
+  fi32 INTEGER (-2147483648..2147483647),
+  fu64 INTEGER (0..9223372036854775807),
+  fi64 INTEGER (-9223372036854775808..9223372036854775807),
+  fun  INTEGER
+}
+Inner ::= SEQUENCE { x INTEGER (0..65535), y UTF8String OPTIONAL }
+Color ::= ENUMERATED { red, green, blue }
+Prim ::= SEQUENCE { b BOOLEAN, s UTF8String, o OCTET STRING, bits BIT STRING, e Color, i IA5String }
+Opt ::= SEQUENCE {
+  a INTEGER (0..255) OPTIONAL, b UTF8String OPTIONAL, c BOOLEAN OPTIONAL, d OCTET STRING OPTIONAL,
+  e Inner OPTIONAL, f INTEGER (-128..127), g Color OPTIONAL,
+  h INTEGER (-9223372036854775808..9223372036854775807) OPTIONAL
+}
+Lists ::= SEQUENCE {
+  li SEQUENCE OF INTEGER (-2147483648..2147483647), ls SEQUENCE OF UTF8String, lq SEQUENCE OF Inner,
+  lo SEQUENCE OF INTEGER (0..255) OPTIONAL, t BOOLEAN, so SET OF INTEGER (0..65535)
+}
+Ch2 ::= CHOICE { x INTEGER (0..255), y OCTET STRING }
+Ch ::= CHOICE { i INTEGER (-32768..32767), b BOOLEAN, s UTF8String, q Inner, c Ch2, e Color }
+ChSeq ::= SEQUENCE { pre BOOLEAN, c Ch, post INTEGER (0..255), oc Ch2 OPTIONAL }
+Lists2 ::= SEQUENCE { lc SEQUENCE OF Ch2, le SEQUENCE OF Color, lb SEQUENCE OF BOOLEAN, lo SEQUENCE OF OCTET STRING }
+Tup ::= INTEGER (0..65535)
+TupL ::= SEQUENCE OF UTF8String
+UseTup ::= SEQUENCE { t Tup, u Tup OPTIONAL, l TupL }
+Deep ::= SEQUENCE { a SEQUENCE { b SEQUENCE { c INTEGER (0..255) OPTIONAL } OPTIONAL, d BOOLEAN }, z UTF8String }
+SetT ::= SET { b [1] UTF8String, a [0] INTEGER (0..255) }
+NullSeq ::= SEQUENCE { a INTEGER (0..255), n NULL, b INTEGER (0..255) }
+OptNull ::= SEQUENCE { n NULL OPTIONAL, b INTEGER (0..255) OPTIONAL, c INTEGER (0..255) }
+ChNull ::= CHOICE { n NULL, i INTEGER (0..255) }
+BitsT ::= BIT STRING
+END"
+    );
+
+    mod bad {
+        use asn1rs::prelude::*;
+        zoo_module!(
+            ZOO_BAD_SRC,
+            r"ZooBad DEFINITIONS AUTOMATIC TAGS ::=
+BEGIN
+Nested ::= SEQUENCE { ll SEQUENCE OF SEQUENCE OF INTEGER (0..255), x INTEGER (0..255) }
+ChList ::= CHOICE { l SEQUENCE OF INTEGER (0..255), i INTEGER (0..255) }
+END"
+        );
+    }
+    use bad::{ChList, Nested, ZOO_BAD_SRC};
+
+    // ------------------------------------------------------------------
+    // Values <-> integer lists (same layout as dec_val / enc_val in OpsProto.v)
+    // ------------------------------------------------------------------
+    struct It<'a>(&'a [I], usize);
+    impl<'a> It<'a> {
+        fn next(&mut self) -> I {
+            let v = self.0[self.1];
+            self.1 += 1;
+            v
+        }
+        fn done(&self) -> bool {
+            self.1 == self.0.len()
+        }
+    }
+    trait Zv: Sized {
+        fn dec(it: &mut It) -> Self;
+        fn enc(&self, out: &mut Vec<I>);
+    }
+    macro_rules! zv_int {
+        ($($t:ty),*) => {$(
+            impl Zv for $t {
+                fn dec(it: &mut It) -> Self { it.next() as $t }
+                fn enc(&self, out: &mut Vec<I>) { out.push(*self as I) }
+            }
+        )*};
+    }
+    zv_int!(u8, i8, u16, i16, u32, i32, u64, i64);
+    impl Zv for bool {
+        fn dec(it: &mut It) -> Self {
+            it.next() != 0
+        }
+        fn enc(&self, out: &mut Vec<I>) {
+            out.push(*self as I)
+        }
+    }
+    impl Zv for String {
+        fn dec(it: &mut It) -> Self {
+            let n = it.next() as usize;
+            let b: Vec<u8> = (0..n).map(|_| it.next() as u8).collect();
+            String::from_utf8(b).expect("generator must supply valid UTF-8")
+        }
+        fn enc(&self, out: &mut Vec<I>) {
+            out.push(self.len() as I);
+            out.extend(self.as_bytes().iter().map(|b| *b as I));
+        }
+    }
+    // OCTET STRING and SEQUENCE OF share the layout: count, then the elements
+    impl<T: Zv> Zv for Vec<T> {
+        fn dec(it: &mut It) -> Self {
+            let n = it.next() as usize;
+            (0..n).map(|_| T::dec(it)).collect()
+        }
+        fn enc(&self, out: &mut Vec<I>) {
+            out.push(self.len() as I);
+            for v in self {
+                v.enc(out);
+            }
+        }
+    }
+    impl<T: Zv> Zv for Option<T> {
+        fn dec(it: &mut It) -> Self {
+            if it.next() == 0 {
+                None
+            } else {
+                Some(T::dec(it))
+            }
+        }
+        fn enc(&self, out: &mut Vec<I>) {
+            match self {
+                None => out.push(0),
+                Some(v) => {
+                    out.push(1);
+                    v.enc(out)
+                }
+            }
+        }
+    }
+    impl Zv for Null {
+        fn dec(_it: &mut It) -> Self {
+            Null
+        }
+        fn enc(&self, _out: &mut Vec<I>) {}
+    }
+    impl Zv for BitVec {
+        fn dec(it: &mut It) -> Self {
+            let bit_len = it.next() as u64;
+            let bytes = Vec::<u8>::dec(it);
+            BitVec::from_bytes(bytes, bit_len)
+        }
+        fn enc(&self, out: &mut Vec<I>) {
+            out.push(self.bit_len() as I);
+            self.as_byte_slice().to_vec().enc(out);
+        }
+    }
+    macro_rules! zv_struct {
+        ($name:ident { $($f:ident),* }) => {
+            impl Zv for $name {
+                fn dec(it: &mut It) -> Self { $(let $f = Zv::dec(it);)* $name { $($f),* } }
+                fn enc(&self, out: &mut Vec<I>) { $(self.$f.enc(out);)* }
+            }
+        };
+    }
+    macro_rules! zv_tuple {
+        ($name:ident) => {
+            impl Zv for $name {
+                fn dec(it: &mut It) -> Self { $name(Zv::dec(it)) }
+                fn enc(&self, out: &mut Vec<I>) { self.0.enc(out) }
+            }
+        };
+    }
+    macro_rules! zv_enum {
+        ($name:ident { $($v:ident = $i:literal),* }) => {
+            impl Zv for $name {
+                fn dec(it: &mut It) -> Self { match it.next() { $($i => $name::$v,)* _ => panic!("bad enum index") } }
+                fn enc(&self, out: &mut Vec<I>) { out.push(match self { $($name::$v => $i),* }) }
+            }
+        };
+    }
+    macro_rules! zv_choice {
+        ($name:ident { $($v:ident = $i:literal),* }) => {
+            impl Zv for $name {
+                fn dec(it: &mut It) -> Self { match it.next() { $($i => $name::$v(Zv::dec(it)),)* _ => panic!("bad choice index") } }
+                fn enc(&self, out: &mut Vec<I>) { match self { $($name::$v(c) => { out.push($i); c.enc(out) })* } }
+            }
+        };
+    }
+    zv_struct!(Ints { fu8, fi8, fu16, fi16, fu32, fi32, fu64, fi64, fun });
+    zv_struct!(Inner { x, y });
+    zv_enum!(Color { Red = 0, Green = 1, Blue = 2 });
+    zv_struct!(Prim { b, s, o, bits, e, i });
+    zv_struct!(Opt { a, b, c, d, e, f, g, h });
+    zv_struct!(Lists { li, ls, lq, lo, t, so });
+    zv_choice!(Ch2 { X = 0, Y = 1 });
+    zv_choice!(Ch { I = 0, B = 1, S = 2, Q = 3, C = 4, E = 5 });
+    zv_struct!(ChSeq { pre, c, post, oc });
+    zv_struct!(Lists2 { lc, le, lb, lo });
+    zv_tuple!(Tup);
+    zv_tuple!(TupL);
+    zv_struct!(UseTup { t, u, l });
+    zv_struct!(DeepAb { c });
+    zv_struct!(DeepA { b, d });
+    zv_struct!(Deep { a, z });
+    // SET: components in the order the generated write_seq/read_seq visits them (canonical tag order)
+    zv_struct!(SetT { a, b });
+    zv_struct!(NullSeq { a, n, b });
+    zv_struct!(OptNull { n, b, c });
+    zv_choice!(ChNull { N = 0, I = 1 });
+    zv_tuple!(BitsT);
+    zv_struct!(Nested { ll, x });
+    zv_choice!(ChList { L = 0, I = 1 });
+
+    // ------------------------------------------------------------------
+    fn err_kind(e: &Error) -> I {
+        match e {
+            Error::Io(..) => 1,
+            Error::InvalidUtf8Received => 2,
+            Error::MissingRequiredField(..) => 3,
+            Error::InvalidTagReceived(..) => 4,
+            Error::InvalidFormat(..) => 5,
+            Error::InvalidVariant(..) => 6,
+            Error::UnexpectedFormat(..) => 7,
+            Error::UnexpectedTag(..) => 8,
+        }
+    }
+
+    fn enc_bytes(out: &mut Vec<I>, b: &[u8]) {
+        out.push(b.len() as I);
+        out.extend(b.iter().map(|x| *x as I));
+    }
+
+    fn read_back<T: Readable + Zv + Send + 'static>(bytes: Vec<u8>, out: &mut Vec<I>) {
+        let r = guarded(move || {
+            let mut reader = ProtobufReader::from(&bytes[..]);
+            reader.read::<T>().map_err(|e| err_kind(&e))
+        });
+        match r {
+            Ok(Ok(v)) => {
+                out.push(0);
+                v.enc(out);
+            }
+            Ok(Err(k)) => out.extend([1, k]),
+            Err(class) => out.extend([2, class]),
+        }
+    }
+
+    fn write_read<T: Writable + Readable + Zv + Send + 'static>(capmode: I, vals: &[I]) -> Vec<I> {
+        let mut it = It(vals, 0);
+        let v = T::dec(&mut it);
+        if !it.done() {
+            return vec![-2];
+        }
+        let mut out = Vec::new();
+        // growable back end
+        let w = crate::catch(|| {
+            let mut w = ProtobufWriter::default();
+            w.write(&v).map(|_| w.into_bytes_vec()).map_err(|e| err_kind(&e))
+        });
+        let bytes = match w {
+            Ok(Ok(b)) => b,
+            Ok(Err(k)) => return vec![1, k],
+            Err(class) => return vec![2, class],
+        };
+        out.push(0);
+        enc_bytes(&mut out, &bytes);
+        // fixed-slice back end
+        let n = bytes.len();
+        let cap = match capmode {
+            0 => n,
+            1 => n + 3,
+            _ => n.saturating_sub(1),
+        };
+        let s = crate::catch(|| {
+            let mut buf = vec![0xAAu8; cap];
+            let mut w = ProtobufWriter::from(&mut buf[..]);
+            let r = w.write(&v);
+            let len = w.len_written();
+            let as_bytes = w.as_bytes().to_vec();
+            let into = w.into_bytes_vec();
+            assert!(as_bytes == into && len == into.len(), "slice writer views disagree");
+            r.map(|_| into).map_err(|e| err_kind(&e))
+        });
+        match s {
+            Ok(Ok(b)) => {
+                out.push(0);
+                enc_bytes(&mut out, &b);
+            }
+            Ok(Err(k)) => out.extend([1, k]),
+            Err(class) => out.extend([2, class]),
+        }
+        read_back::<T>(bytes, &mut out);
+        out
+    }
+
+    fn raw_read<T: Readable + Zv + Send + 'static>(bytes: &[I]) -> Vec<I> {
+        let mut out = Vec::new();
+        read_back::<T>(bytes_of(bytes), &mut out);
+        out
+    }
+
+    macro_rules! zoo_dispatch {
+        ($tid:expr, $f:ident, $($arg:expr),*) => {
+            match $tid {
+                0 => $f::<Ints>($($arg),*),
+                1 => $f::<Inner>($($arg),*),
+                2 => $f::<Color>($($arg),*),
+                3 => $f::<Prim>($($arg),*),
+                4 => $f::<Opt>($($arg),*),
+                5 => $f::<Lists>($($arg),*),
+                6 => $f::<Ch2>($($arg),*),
+                7 => $f::<Ch>($($arg),*),
+                8 => $f::<ChSeq>($($arg),*),
+                9 => $f::<Lists2>($($arg),*),
+                10 => $f::<Tup>($($arg),*),
+                11 => $f::<TupL>($($arg),*),
+                12 => $f::<UseTup>($($arg),*),
+                13 => $f::<Deep>($($arg),*),
+                14 => $f::<SetT>($($arg),*),
+                15 => $f::<NullSeq>($($arg),*),
+                16 => $f::<OptNull>($($arg),*),
+                17 => $f::<ChNull>($($arg),*),
+                18 => $f::<BitsT>($($arg),*),
+                19 => $f::<Nested>($($arg),*),
+                20 => $f::<ChList>($($arg),*),
+                _ => vec![-1],
+            }
+        };
+    }
+
+    // ------------------------------------------------------------------
+    // ProtobufEq tie: hand-written types with the real derive
+    // ------------------------------------------------------------------
+    #[derive(ProtobufEq, Default, Debug, Clone, PartialEq)]
+    struct PInner {
+        x: u16,
+        y: Option<String>,
+    }
+    #[derive(ProtobufEq)]
+    struct P0 {
+        a: Option<u64>,
+        b: Option<String>,
+        c: Option<bool>,
+        d: Vec<i32>,
+        e: Option<Vec<u8>>,
+        f: BitVec,
+        g: Option<PInner>,
+        h: Option<Vec<String>>,
+    }
+    #[derive(ProtobufEq)]
+    enum P1 {
+        A(u64),
+        B(PInner),
+        C(String),
+    }
+    zv_struct!(PInner { x, y });
+    zv_struct!(P0 { a, b, c, d, e, f, g, h });
+    zv_choice!(P1 { A = 0, B = 1, C = 2 });
+
+    fn peq_op<T: Zv + ProtobufEq>(vals: &[I]) -> Vec<I> {
+        let mut it = It(vals, 0);
+        let a = T::dec(&mut it);
+        let b = T::dec(&mut it);
+        if !it.done() {
+            return vec![-2];
+        }
+        vec![0, a.protobuf_eq(&b) as I]
+    }
+
+    // ------------------------------------------------------------------
+    fn proto_text(src: &str) -> Vec<I> {
+        use asn1rs_model::asn::MultiModuleResolver;
+        use asn1rs_model::generate::protobuf::ProtobufDefGenerator;
+        use asn1rs_model::parse::Tokenizer;
+        use asn1rs_model::protobuf::ToProtobufModel;
+        use asn1rs_model::Model;
+        let tokens = Tokenizer.parse(src);
+        let model = Model::try_from(tokens).unwrap();
+        let mut r = MultiModuleResolver::default();
+        r.push(model);
+        let models = r.try_resolve_all().unwrap();
+        let scope = models.iter().collect::<Vec<_>>();
+        let mut out = vec![0];
+        for m in &models {
+            let p = m.to_rust_with_scope(&scope[..]).to_protobuf();
+            let (_file, content) = ProtobufDefGenerator::generate_file(&p).unwrap();
+            out.extend(content.chars().map(|c| c as u32 as I));
+        }
+        out
+    }
+
+    fn enc<T>(r: Result<T, Error>, rest: usize, f: impl Fn(T) -> Vec<I>) -> Vec<I> {
+        match r {
+            Ok(v) => {
+                let mut o = vec![0, rest as I];
+                o.extend(f(v));
+                o
+            }
+            Err(e) => vec![1, err_kind(&e)],
+        }
+    }
+
+    fn wr_rd<T>(
+        written: Vec<u8>,
+        tail: &[I],
+        rd: impl Fn(&mut &[u8]) -> Result<T, Error>,
+        f: impl Fn(T) -> Vec<I>,
+    ) -> Vec<I> {
+        let mut out = vec![written.len() as I];
+        out.extend(written.iter().map(|b| *b as I));
+        let mut all = written.clone();
+        all.extend(bytes_of(tail));
+        let mut slice = &all[..];
+        let r = rd(&mut slice);
+        out.extend(enc(r, slice.len(), f));
+        out
+    }
+
+    fn raw<T>(bytes: &[I], rd: impl Fn(&mut &[u8]) -> Result<T, Error>, f: impl Fn(T) -> Vec<I>) -> Vec<I> {
+        let all = bytes_of(bytes);
+        let mut s = &all[..];
+        let r = rd(&mut s);
+        enc(r, s.len(), f)
+    }
+
+    fn fmt_of(w: I) -> Format {
+        match w {
+            0 => Format::VarInt,
+            1 => Format::Fixed64,
+            2 => Format::LengthDelimited,
+            _ => Format::Fixed32,
+        }
+    }
+
+    fn bv_ints(b: BitVec) -> Vec<I> {
+        let mut o = vec![b.bit_len() as I];
+        enc_bytes(&mut o, b.as_byte_slice());
+        o
+    }
+
+    pub fn run(op: I, a: &[I]) -> Vec<I> {
+        match op {
+            4001 => {
+                let mut w = Vec::<u8>::new();
+                w.write_varint(a[0] as u64).unwrap();
+                wr_rd(w, &a[1..], |s| s.read_varint(), |v| vec![v as I])
+            }
+            4002 => {
+                let mut w = Vec::<u8>::new();
+                w.write_sint32(a[0] as i32).unwrap();
+                wr_rd(w, &a[1..], |s| s.read_sint32(), |v| vec![v as I])
+            }
+            4003 => {
+                let mut w = Vec::<u8>::new();
+                w.write_sint64(a[0] as i64).unwrap();
+                wr_rd(w, &a[1..], |s| s.read_sint64(), |v| vec![v as I])
+            }
+            4004 => {
+                let mut w = Vec::<u8>::new();
+                w.write_tag(a[0] as u32, fmt_of(a[1])).unwrap();
+                wr_rd(w, &a[2..], |s| s.read_tag(), |(f, w)| vec![f as I, w as u32 as I])
+            }
+            4005 => {
+                let mut w = Vec::<u8>::new();
+                w.write_uint32(a[0] as u32).unwrap();
+                wr_rd(w, &a[1..], |s| s.read_uint32(), |v| vec![v as I])
+            }
+            4006 => {
+                let mut w = Vec::<u8>::new();
+                w.write_bool(a[0] != 0).unwrap();
+                wr_rd(w, &a[1..], |s| s.read_bool(), |v| vec![v as I])
+            }
+            4007 => {
+                let mut w = Vec::<u8>::new();
+                w.write_sfixed32(a[0] as i32).unwrap();
+                wr_rd(w, &a[1..], |s| s.read_sfixed32(), |v| vec![v as I])
+            }
+            4008 => {
+                let mut w = Vec::<u8>::new();
+                w.write_bytes(&bytes_of(a)).unwrap();
+                let mut out = vec![w.len() as I];
+                out.extend(w.iter().map(|b| *b as I));
+                out
+            }
+            4009 => {
+                let bv = BitVec::from_bytes(bytes_of(&a[1..]), a[0] as u64);
+                let p = bv.to_vec_with_trailing_bit_len();
+                let mut out = vec![0];
+                enc_bytes(&mut out, &p);
+                let back = BitVec::from_vec_with_trailing_bit_len(p);
+                out.push(0);
+                out.extend(bv_ints(back));
+                out
+            }
+            4010 => raw(a, |s| s.read_varint(), |v| vec![v as I]),
+            4011 => raw(a, |s| s.read_tag(), |(f, w)| vec![f as I, w as u32 as I]),
+            4012 => raw(a, |s| s.read_sint32(), |v| vec![v as I]),
+            4013 => raw(a, |s| s.read_sint64(), |v| vec![v as I]),
+            4014 => raw(
+                a,
+                |s| s.read_string(),
+                |v| {
+                    let mut o = Vec::new();
+                    enc_bytes(&mut o, v.as_bytes());
+                    o
+                },
+            ),
+            4015 => raw(a, |s| s.read_bit_vec(), bv_ints),
+            4016 => raw(a, |s| s.read_uint32(), |v| vec![v as I]),
+            4017 => raw(a, |s| s.read_bool(), |v| vec![v as I]),
+            4018 => raw(a, |s| s.read_sfixed32(), |v| vec![v as I]),
+            4050 => zoo_dispatch!(a[0], write_read, a[1], &a[2..]),
+            4060 => zoo_dispatch!(a[0], raw_read, &a[2..]), // a[1] is a generator hint, ignored
+            4070 => match a[0] {
+                0 => peq_op::<P0>(&a[1..]),
+                1 => peq_op::<P1>(&a[1..]),
+                _ => vec![-1],
+            },
+            4100 => proto_text(ZOO_SRC),
+            4102 => proto_text(ZOO_BAD_SRC),
+            _ => vec![-1],
+        }
+    }
 }
